@@ -162,6 +162,7 @@ Record accepted_facts (c : chain) (now : Z) (p : pool) (t : tx) (p' : pool) (rep
   af_final : check_final c t = true;
   af_fresh : ~ In (t_id t) (pool_ids p);
   af_coins : exists coins lp, view_coins p c (t_ins t) = Some coins /\ mature c coins = true /\
+     calc_lock_points c coins t = Some lp /\ check_seq_locks c lp = true /\
      p' = add_entry (remove_list p repl) {| e_tx := t; e_time := now; e_cb := existsb snd coins; e_lp := lp |};
   af_anc : direct_conflicts p t <> [] -> intersects (ancestors_of_tx p t) (direct_conflicts p t) = false;
   af_repl : repl = descendants p (direct_conflicts p t) }.
@@ -224,7 +225,7 @@ Lemma accept_J pol c now p dp t p' repl : J c p dp -> U t ->
   J c p' dp /\ accepted_facts c now p t p' repl.
 Proof.
   intros Hj Ut Ha. pose proof (accept_accepted _ _ _ _ _ _ _ Ha) as Af. split; [|exact Af].
-  destruct Af as [Hvin Hnd Hfin Hfresh (coins & lp & Hcoins & Hmat & Ep') Hanc Hrepl].
+  destruct Af as [Hvin Hnd Hfin Hfresh (coins & lp & Hcoins & Hmat & _ & _ & Ep') Hanc Hrepl].
   pose proof (j_pool _ _ _ Hj) as K.
   set (q := remove_list p repl) in *.
   assert (J c q dp) as Hq by (unfold q; rewrite Hrepl; apply J_remove_desc; exact Hj).
